@@ -7,6 +7,7 @@ import (
 	"sort"
 	"strconv"
 	"strings"
+	"time"
 
 	"github.com/creachadair/jrpc2"
 	rt "github.com/creachadair/jrpc2/verifrt"
@@ -65,6 +66,7 @@ type member struct {
 	Holding  bool
 	Released bool
 	Result   string // what the handler returned (for matching)
+	ReplyExpected bool // reply-shaped member on a push-disabled server: answered as an invalid request
 	HErr     string
 }
 
@@ -77,8 +79,10 @@ func (m *member) hasHandler() bool { return m.Kind == mCall || m.Kind == mNote }
 // wantsReply reports whether the member must produce a response object.
 func (m *member) wantsReply() bool {
 	switch m.Kind {
-	case mNote, mUnknownNote, mReply:
+	case mNote, mUnknownNote:
 		return false
+	case mReply:
+		return m.ReplyExpected
 	}
 	return true
 }
@@ -129,16 +133,45 @@ const (
 )
 
 type action struct {
-	Kind    actKind
-	ID      string // for cancel
-	Gate    bool
-	Open    bool
-	Delay   int
-	Invoke  int
-	Return  int
-	Done    bool
-	Err     string
-	Tag     string
+	Kind   actKind
+	ID     string // for cancel
+	Gate   bool
+	Open   bool
+	Delay  int
+	Invoke int
+	Return int
+	Done   bool
+	Err    string
+	Tag    string
+	// push actions
+	CtxKind   int // 0 background, 1 cancelled by the workload, 2 deadline on the fake clock
+	CancelSeq int // seq at which the workload cancelled / the deadline fired (-1)
+	CancelEnd int
+	cancel    func()
+	Result    string
+	ErrV      error
+	FromH     *member // issued from inside this handler (nil: outside task)
+	Twice     bool    // Stop called twice
+}
+
+// A pushed request as seen by the peer.
+type pushRec struct {
+	Seq    int
+	ID     string // "" for notifications
+	Method string
+	Tag    string
+	Act    *action
+	Plan   int // reply plan: 0 now, 1 at a gate, 2 never, 3 now + duplicate, 4 at a gate, after an unknown-id reply
+	Open   bool
+	Replies []peerReply
+}
+
+type peerReply struct {
+	Seq     int    // seq at which the peer sent it
+	Arrive  int    // seq at which the server's Recv returned it (-1)
+	Payload string // unique
+	Raw     string
+	IsErr   bool
 }
 
 type srvWorld struct {
@@ -159,10 +192,30 @@ type srvWorld struct {
 
 	peerIn    []string
 	peerEOF   bool
+	pushed    []*pushRec
+	outbox    []string // replies the peer will send (FIFO)
+	nreply    int
+	releaseAll bool
+	deadlines []*action
+	closeAfter int // peer closes after sending this many messages (-1: at the end)
+	postStop  bool
+	restartOut []*outRec
 	closeGate bool
 	stopSeq   int // seq at which a stop cause was first invoked (-1)
+	stopDone  int // seq at which an explicit Stop() first returned (-1)
+	causes    []stopCause
+	arrScan   int
+	started   bool
+	qpoints   []int // sequence numbers of the quiescent points seen so far
 	status    *jrpc2.ServerStatus
 	waitSeq   int
+}
+
+// A stopCause is something that ends the server: Stop(), the peer closing, an
+// injected Recv failure. Begin/End bracket the event in sequence numbers.
+type stopCause struct {
+	Kind       string // "stopped", "closed", "error"
+	Begin, End int
 }
 
 type srvCfg struct {
@@ -178,6 +231,14 @@ type srvCfg struct {
 	NoteP        float64
 	KMax         int
 	RPCInfo      bool
+	SeqIDs       bool    // unique ids 1,2,3,... (collide with callback ids)
+	Pushes       int     // max push actions (Notify/Callback)
+	Stops        int     // max Stop() actions
+	ForcePush    bool    // AllowPush always on
+	ReplyShaped  bool    // generate reply-shaped inbound members (unsolicited replies)
+	FaultP       float64 // probability that a channel fault is scripted on the server end
+	EarlyCloseP  float64 // probability that the peer closes before having sent everything
+	PostStop     bool    // keep sending records after the stop
 }
 
 func (w *srvWorld) seq() int { return len(w.r.Sim.Events) }
@@ -189,6 +250,9 @@ func (w *srvWorld) genID(n int) string {
 	g := w.r.Gen
 	if w.cfg.IDPool > 0 {
 		return strconv.Itoa(1 + g.Int("idpool", w.cfg.IDPool))
+	}
+	if w.cfg.SeqIDs {
+		return strconv.Itoa(n)
 	}
 	switch g.Weighted("idform", []int{6, 3, 1, 1}) {
 	case 1:
@@ -216,7 +280,10 @@ func (w *srvWorld) genMember(mi, idx, n int) *member {
 	g := w.r.Gen
 	m := &member{Msg: mi, Idx: idx, Enter: -1, Exit: -1, Logged: -1}
 	m.Tag = fmt.Sprintf("m%d.%d", mi, idx)
-	weights := []int{10, 0, 0, 0, 0, 0, 0}
+	weights := []int{10, 0, 0, 0, 0, 0, 0, 0}
+	if w.cfg.ReplyShaped {
+		weights[7] = 3
+	}
 	weights[1] = int(w.cfg.NoteP * 20)
 	if w.cfg.Unknown {
 		weights[2], weights[3], weights[5] = 2, 1, 1
@@ -252,6 +319,11 @@ func (w *srvWorld) genMember(mi, idx, n int) *member {
 	case mRPCOther:
 		m.ID = w.genID(n)
 		m.Raw = fmt.Sprintf(`{"jsonrpc":"2.0","id":%s,"method":"rpc.other"}`, m.ID)
+	case mReply:
+		// an unsolicited reply; its id may or may not name an outstanding callback
+		m.ID = strconv.Itoa(1 + g.Int("strayid", 5))
+		m.EchoID = m.ID
+		m.Raw = fmt.Sprintf(`{"jsonrpc":"2.0","id":%s,"result":{"r":"stray-%s"}}`, m.ID, m.Tag)
 	case mInvalid:
 		withID := g.Chance("invid", 0.6)
 		id := ""
@@ -319,6 +391,9 @@ func (w *srvWorld) generate() {
 		for i := 0; i < k; i++ {
 			n++
 			m := w.genMember(mi, i, n)
+			if m.Kind == mReply {
+				m.ReplyExpected = !w.push
+			}
 			if msg.Batch && m.Defect == "non-object" && m.Raw == `[1,2]` {
 				// fine inside a batch too: an array member is a non-object member
 			}
@@ -351,7 +426,7 @@ func (w *srvWorld) generate() {
 		}
 	}
 	for i := 0; i < nc; i++ {
-		a := &action{Kind: aCancel, Invoke: -1, Return: -1}
+		a := &action{Kind: aCancel, Invoke: -1, Return: -1, CancelSeq: -1}
 		if len(ids) > 0 && g.Chance("cancelknown", 0.85) {
 			a.ID = ids[g.Int("cancelid", len(ids))]
 		} else {
@@ -359,6 +434,48 @@ func (w *srvWorld) generate() {
 		}
 		a.Gate = g.Chance("actgate", 0.6)
 		a.Delay = g.Int("actdelay", 30)
+		w.acts = append(w.acts, a)
+	}
+	var hm []*member
+	for _, m := range w.msgs {
+		for _, mm := range m.Members {
+			if mm.hasHandler() {
+				hm = append(hm, mm)
+			}
+		}
+	}
+	np := 0
+	if w.cfg.Pushes > 0 {
+		np = g.Int("npush", w.cfg.Pushes+1)
+	}
+	for i := 0; i < np; i++ {
+		a := &action{Kind: aNotify, Invoke: -1, Return: -1, CancelSeq: -1, Tag: fmt.Sprintf("p%d", i)}
+		if g.Chance("iscallback", 0.7) {
+			a.Kind = aCallback
+			a.CtxKind = g.Weighted("pushctx", []int{4, 3, 2})
+		}
+		if len(hm) > 0 && g.Chance("pushfromhandler", 0.5) {
+			a.FromH = hm[g.Int("pushhandler", len(hm))]
+			a.FromH.Script.Push = 1
+		} else {
+			a.Gate = g.Chance("actgate", 0.5)
+			a.Delay = g.Int("actdelay", 30)
+		}
+		w.acts = append(w.acts, a)
+	}
+	ns := 0
+	if w.cfg.Stops > 0 {
+		ns = g.Int("nstop", w.cfg.Stops+1)
+	}
+	for i := 0; i < ns; i++ {
+		a := &action{Kind: aStop, Invoke: -1, Return: -1, CancelSeq: -1, Twice: g.Chance("stoptwice", 0.2)}
+		if len(hm) > 0 && g.Chance("stopfromhandler", 0.25) {
+			a.FromH = hm[g.Int("stophandler", len(hm))]
+			a.FromH.Script.Push = 1
+		} else {
+			a.Gate = g.Chance("actgate", 0.6)
+			a.Delay = g.Int("stopdelay", 60)
+		}
 		w.acts = append(w.acts, a)
 	}
 }
@@ -424,7 +541,7 @@ func (w *srvWorld) handle(ctx context.Context, req *jrpc2.Request) (any, error) 
 		m.Holding = true
 		r.Ev("h.hold", m.Tag, 0, 0, "")
 		respect := m.Script.RespectCtx
-		rt.Block("h:hold", func() bool { return m.Released || (respect && ctx.Err() != nil) })
+		rt.Block("h:hold", func() bool { return m.Released || w.releaseAll || (respect && ctx.Err() != nil) })
 		m.Holding = false
 		poll()
 	}
@@ -451,9 +568,11 @@ func (w *srvWorld) handle(ctx context.Context, req *jrpc2.Request) (any, error) 
 }
 
 func (w *srvWorld) doPush(ctx context.Context, m *member) {
-	// filled in by push workloads (C09); for other properties a plain Notify
-	err := w.srv.Notify(ctx, "pushed", map[string]string{"from": m.Tag})
-	w.r.Ev("h.notify", m.Tag, 0, 0, errStr(err))
+	for _, a := range w.acts {
+		if a.FromH == m {
+			w.perform(ctx, a)
+		}
+	}
 }
 
 // LogRequest implements jrpc2.RPCLogger.
@@ -490,19 +609,42 @@ func (w *srvWorld) LogResponse(ctx context.Context, rsp *jrpc2.Response) {}
 // tasks
 
 func (w *srvWorld) peerSender() {
-	for _, m := range w.msgs {
-		if m.Gate {
-			rt.Block("peer:gate", func() bool { return m.Open })
+	next := 0
+	for {
+		var msg *message
+		if next < len(w.msgs) {
+			msg = w.msgs[next]
 		}
-		m.Sent = w.seq()
-		w.r.Ev("peer.send", fmt.Sprint("msg", m.Idx), 0, 0, m.Raw)
-		if err := w.pEnd.Send([]byte(m.Raw)); err != nil {
-			w.r.Ev("peer.send.err", "", 0, 0, err.Error())
+		if w.closeAfter >= 0 && next >= w.closeAfter {
+			msg = nil
+		}
+		rt.Block("peer:next", func() bool {
+			return len(w.outbox) > 0 || (msg != nil && (!msg.Gate || msg.Open)) || w.closeGate
+		})
+		switch {
+		case len(w.outbox) > 0:
+			raw := w.outbox[0]
+			w.outbox = w.outbox[1:]
+			w.r.Ev("peer.reply", "", 0, 0, raw)
+			if err := w.pEnd.Send([]byte(raw)); err != nil {
+				w.r.Ev("peer.send.err", "", 0, 0, err.Error())
+			}
+		case msg != nil && (!msg.Gate || msg.Open):
+			next++
+			msg.Sent = w.seq()
+			w.r.Ev("peer.send", fmt.Sprint("msg", msg.Idx), 0, 0, msg.Raw)
+			if err := w.pEnd.Send([]byte(msg.Raw)); err != nil {
+				w.r.Ev("peer.send.err", "", 0, 0, err.Error())
+			}
+		default: // close gate
+			if w.stopSeq < 0 {
+				w.stopSeq = w.seq()
+			}
+			w.causes = append(w.causes, stopCause{Kind: "closed", Begin: w.seq(), End: -1})
+			w.pEnd.Close()
 			return
 		}
 	}
-	rt.Block("peer:closegate", func() bool { return w.closeGate })
-	w.pEnd.Close()
 }
 
 func (w *srvWorld) peerReceiver() {
@@ -514,10 +656,63 @@ func (w *srvWorld) peerReceiver() {
 			return
 		}
 		w.peerIn = append(w.peerIn, string(b))
+		w.peerSawRecord(string(b))
 	}
 }
 
+// peerSawRecord lets the scripted peer react to pushed requests.
+func (w *srvWorld) peerSawRecord(raw string) {
+	o := &outRec{Raw: raw}
+	parseOut(o)
+	for _, ob := range o.Objs {
+		if ob.Method == "" {
+			continue
+		}
+		var p tagParams
+		json.Unmarshal([]byte(ob.Params), &p)
+		pr := &pushRec{Seq: w.seq(), ID: ob.ID, Method: ob.Method, Tag: p.T}
+		for _, a := range w.acts {
+			if a.Tag == p.T {
+				pr.Act = a
+			}
+		}
+		w.pushed = append(w.pushed, pr)
+		if ob.ID == "" {
+			continue
+		}
+		g := w.r.Sch
+		pr.Plan = g.Weighted("replyplan", []int{5, 2, 2, 1, 1})
+		switch pr.Plan {
+		case 0:
+			w.queueReply(pr, false)
+		case 3:
+			w.queueReply(pr, false)
+			w.queueReply(pr, false)
+		}
+	}
+}
+
+// queueReply makes the peer answer a pushed call with a fresh unique payload.
+func (w *srvWorld) queueReply(pr *pushRec, unknownFirst bool) {
+	if unknownFirst {
+		w.nreply++
+		w.outbox = append(w.outbox, fmt.Sprintf(`{"jsonrpc":"2.0","id":%d,"result":{"r":"unsolicited%d"}}`, 7000+w.nreply, w.nreply))
+	}
+	w.nreply++
+	pay := fmt.Sprintf("r%d", w.nreply)
+	rep := peerReply{Seq: w.seq(), Arrive: -1, Payload: pay}
+	if w.r.Sch.Chance("replyerr", 0.25) {
+		rep.IsErr = true
+		rep.Raw = fmt.Sprintf(`{"jsonrpc":"2.0","id":%s,"error":{"code":%d,"message":"%s"}}`, pr.ID, 8000+w.nreply, pay)
+	} else {
+		rep.Raw = fmt.Sprintf(`{"jsonrpc":"2.0","id":%s,"result":{"r":"%s"}}`, pr.ID, pay)
+	}
+	pr.Replies = append(pr.Replies, rep)
+	w.outbox = append(w.outbox, rep.Raw)
+}
+
 func (w *srvWorld) actionTask(a *action) {
+	rt.Block("act:started", func() bool { return w.started })
 	if a.Gate {
 		rt.Block("act:gate", func() bool { return a.Open })
 	} else {
@@ -525,23 +720,76 @@ func (w *srvWorld) actionTask(a *action) {
 			rt.Yield("act:delay")
 		}
 	}
-	a.Invoke = w.seq()
+	w.perform(context.Background(), a)
+}
+
+// perform executes one API action (from an outside task or from a handler).
+func (w *srvWorld) perform(ctx context.Context, a *action) {
 	switch a.Kind {
 	case aCancel:
+		a.Invoke = w.seq()
 		w.r.Ev("cancel.invoke", a.ID, 0, 0, "")
 		w.srv.CancelRequest(a.ID)
 		a.Return = w.seq()
 		w.r.Ev("cancel.return", a.ID, 0, 0, "")
 	case aStop:
+		a.Invoke = w.seq()
 		if w.stopSeq < 0 {
 			w.stopSeq = w.seq()
 		}
+		w.causes = append(w.causes, stopCause{Kind: "stopped", Begin: a.Invoke, End: -1})
+		ci := len(w.causes) - 1
 		w.r.Ev("stop.invoke", "", 0, 0, "")
 		w.srv.Stop()
+		if a.Twice {
+			w.srv.Stop()
+		}
 		a.Return = w.seq()
+		w.causes[ci].End = a.Return
+		if w.stopDone < 0 {
+			w.stopDone = a.Return
+		}
 		w.r.Ev("stop.return", "", 0, 0, "")
+	case aNotify, aCallback:
+		w.doPushAct(ctx, a)
 	}
 	a.Done = true
+}
+
+// push issues a server push described by a, from an outside task or a handler.
+func (w *srvWorld) doPushAct(base context.Context, a *action) {
+	ctx := base
+	switch a.CtxKind {
+	case 1:
+		ctx, a.cancel = context.WithCancel(base)
+	case 2:
+		var c context.CancelFunc
+		ctx, c = context.WithTimeout(base, time.Minute)
+		defer c()
+		w.deadlines = append(w.deadlines, a)
+	}
+	a.Invoke = w.seq()
+	params := map[string]string{"t": a.Tag}
+	if a.Kind == aNotify {
+		w.r.Ev("notify.invoke", a.Tag, 0, 0, "")
+		err := w.srv.Notify(ctx, "pushnote", params)
+		a.Err, a.ErrV = errStr(err), err
+	} else {
+		w.r.Ev("callback.invoke", a.Tag, 0, 0, "")
+		rsp, err := w.srv.Callback(ctx, "pushcall", params)
+		a.Err, a.ErrV = errStr(err), err
+		if err == nil && rsp != nil {
+			a.Result = rsp.ResultString()
+		}
+		if e, ok := err.(*jrpc2.Error); ok {
+			a.Result = "E:" + e.Message
+		} else if err != nil && a.Kind == aCallback && err != context.Canceled && err != context.DeadlineExceeded && err != jrpc2.ErrConnClosed && err != jrpc2.ErrPushUnsupported {
+			a.Result = "X:" + err.Error()
+		}
+	}
+	a.Return = w.seq()
+	a.Done = true
+	w.r.Ev("push.return", a.Tag, 0, 0, a.Err+" "+a.Result)
 }
 
 // onServerSend observes every record the server passes to Send.
@@ -603,24 +851,28 @@ func (w *srvWorld) setup() {
 	r := w.r
 	g := r.Gen
 	w.K = 1 + g.Int("K", w.cfg.KMax)
-	w.push = g.Chance("allowpush", 0.5)
+	w.push = g.Chance("allowpush", 0.5) || w.cfg.ForcePush
 	w.sEnd, w.pEnd = NewPipe(r, "srv", "peer")
 	w.sEnd.CloseUnblocks = g.Chance("closeunblocks", 0.5)
 	w.sEnd.OnSend = w.onServerSend
 	w.stopSeq = -1
+	w.stopDone = -1
 	w.waitSeq = -1
+	w.closeAfter = -1
 }
 
 func (w *srvWorld) start() {
 	r := w.r
 	opts := &jrpc2.ServerOptions{Concurrency: w.K, AllowPush: w.push, RPCLog: w}
 	w.srv = jrpc2.NewServer(w, opts)
-	r.Sim.Spawn("a-main", func() { w.srv.Start(w.sEnd) })
+	r.Sim.Spawn("a-main", func() { w.srv.Start(w.sEnd); w.started = true })
 	r.Sim.Spawn("p-send", w.peerSender)
 	r.Sim.Spawn("p-recv", w.peerReceiver)
 	for i, a := range w.acts {
 		a := a
-		r.Sim.Spawn(fmt.Sprintf("x-act%d", i), func() { w.actionTask(a) })
+		if a.FromH == nil {
+			r.Sim.Spawn(fmt.Sprintf("x-act%d", i), func() { w.actionTask(a) })
+		}
 	}
 	// record arrival of each inbound message at the server: the server's Recv
 	// return events are matched to messages by order.
@@ -630,15 +882,22 @@ func (w *srvWorld) start() {
 // Recv returned them (the channel is ordered, so the n-th data return is the
 // n-th message sent).
 func (w *srvWorld) noteArrivals() {
-	i := 0
-	for seq, e := range w.r.Sim.Events {
-		if e.Kind == "ch.recv.ret" && e.Tag == "srv" && !strings.HasPrefix(e.S, "|") {
-			for i < len(w.msgs) && w.msgs[i].Sent < 0 {
-				i++
-			}
-			if i < len(w.msgs) {
-				w.msgs[i].Arrive = seq
-				i++
+	for ; w.arrScan < len(w.r.Sim.Events); w.arrScan++ {
+		e := w.r.Sim.Events[w.arrScan]
+		if e.Kind != "ch.recv.ret" || e.Tag != "srv" {
+			continue
+		}
+		raw := e.S
+		if i := strings.LastIndex(raw, "|"); i >= 0 {
+			raw = raw[:i]
+		}
+		if raw == "" {
+			continue
+		}
+		for _, m := range w.msgs {
+			if m.Sent >= 0 && m.Arrive < 0 && m.Raw == raw {
+				m.Arrive = w.arrScan
+				break
 			}
 		}
 	}
@@ -646,9 +905,12 @@ func (w *srvWorld) noteArrivals() {
 
 // gates lists what the workload can open at a quiescent point.
 type gateRef struct {
-	msg *message
-	mem *member
-	act *action
+	msg    *message
+	mem    *member
+	act    *action
+	cancel *action  // cancel the context of a pending push
+	reply  *pushRec // let the peer answer a pushed call now
+	clock  bool     // advance the fake clock past the pending deadlines
 }
 
 func (w *srvWorld) closedGates() []gateRef {
@@ -669,8 +931,22 @@ func (w *srvWorld) closedGates() []gateRef {
 		}
 	}
 	for _, a := range w.acts {
-		if a.Gate && !a.Open {
+		if a.Gate && !a.Open && a.FromH == nil {
 			gs = append(gs, gateRef{act: a})
+		}
+		if a.CtxKind == 1 && a.cancel != nil && a.CancelSeq < 0 && !a.Done {
+			gs = append(gs, gateRef{cancel: a})
+		}
+	}
+	for _, pr := range w.pushed {
+		if (pr.Plan == 1 || pr.Plan == 4) && !pr.Open {
+			gs = append(gs, gateRef{reply: pr})
+		}
+	}
+	for _, a := range w.deadlines {
+		if a.CancelSeq < 0 && !a.Done {
+			gs = append(gs, gateRef{clock: true})
+			break
 		}
 	}
 	return gs
@@ -687,6 +963,30 @@ func (w *srvWorld) open(g gateRef) {
 	case g.act != nil:
 		g.act.Open = true
 		w.r.Ev("gate.act", "", 0, 0, "")
+	case g.cancel != nil:
+		a := g.cancel
+		a.CancelSeq = w.seq()
+		w.r.Ev("gate.ctxcancel", a.Tag, 0, 0, "")
+		a.cancel() // context.CancelFunc: closes a channel, wakes waiters that park at once
+		a.CancelEnd = w.seq()
+	case g.reply != nil:
+		g.reply.Open = true
+		w.r.Ev("gate.reply", g.reply.Tag, 0, 0, "")
+		w.queueReply(g.reply, g.reply.Plan == 4)
+	case g.clock:
+		w.r.Ev("gate.clock", "", 0, 0, "+61s")
+		for _, a := range w.deadlines {
+			if a.CancelSeq < 0 && !a.Done {
+				a.CancelSeq = w.seq()
+			}
+		}
+		w.r.Sim.Advance(61 * time.Second)
+		for _, a := range w.deadlines {
+			if a.CancelEnd == 0 && a.CancelSeq >= 0 {
+				a.CancelEnd = w.seq()
+			}
+		}
+		w.r.Probe("deadline-fired-on-fake-clock")
 	}
 }
 
@@ -699,6 +999,8 @@ func (w *srvWorld) drive(atQ func()) bool {
 		if !r.RunQ() {
 			return false
 		}
+		w.qpoints = append(w.qpoints, w.seq())
+		r.Ev("quiescent", "", len(w.qpoints), 0, "")
 		if atQ != nil {
 			atQ()
 			if r.Failed() {
@@ -723,6 +1025,7 @@ func (w *srvWorld) drive(atQ func()) bool {
 func (w *srvWorld) shutdown() bool {
 	r := w.r
 	w.closeGate = true
+	w.releaseAll = true
 	r.Sim.Spawn("w-wait", func() {
 		st := w.srv.WaitStatus()
 		w.status = &st
